@@ -59,6 +59,7 @@ type c05HostileChild struct {
 	Queries      int64          `json:"queries"`
 	Concurrent   int64          `json:"concurrent_phase_operations"`
 	UpstreamErrs int64          `json:"queries_upstream_exchange_failed_not_judged"`
+	ReqOutcomes  map[string]int `json:"shaped_request_outcomes"`
 	Panics       []string       `json:"panics"`
 	Malformed    []string       `json:"malformed"`
 	Stalls       []c05StallCand `json:"stall_candidates"`
@@ -252,7 +253,7 @@ func c05ConfirmChildMain(t *testing.T) {
 		ob, _ := json.MarshalIndent(out, "", " ")
 		_ = os.WriteFile(os.Getenv("VERIF_C05_CHILD_REPORT"), ob, 0o644)
 	}
-	g := c05NewRig(t, c05RigOpts{Deadline: time.Duration(in.DeadlineMS) * time.Millisecond})
+	g := c05NewRig(t, c05RigOpts{Deadline: time.Duration(in.DeadlineMS) * time.Millisecond, TLSName: c05TLSName, StrictSNI: true})
 	g.onFatal = write
 	g.notef("REPLAY on a fresh server: %d operations, then %s", len(in.Ops), in.Op)
 	for _, op := range in.Ops {
@@ -321,10 +322,18 @@ func c05HostileChildMain(t *testing.T) {
 		g.noteMu.Unlock()
 		rep.AdminOps, rep.Accepted, rep.Queries = g.admin.Load(), g.okCodes.Load(), g.queries.Load()
 		rep.UpstreamErrs = g.upstreamErrs.Load()
+		g.reqMu.Lock()
+		rep.ReqOutcomes = map[string]int{}
+		for k, v := range g.reqOutcomes {
+			rep.ReqOutcomes[k] = v
+		}
+		g.reqMu.Unlock()
 		b, _ := json.MarshalIndent(rep, "", " ")
 		_ = os.WriteFile(os.Getenv("VERIF_C05_CHILD_REPORT"), b, 0o644)
 	}
-	g = c05NewRig(t, c05RigOpts{Deadline: time.Duration(c05DeadlineMS()) * time.Millisecond})
+	// round 6: the server has a TLS server name and checks SNI strictly, so that
+	// the ClientID extraction goes all its ways (pool "clientid")
+	g = c05NewRig(t, c05RigOpts{Deadline: time.Duration(c05DeadlineMS()) * time.Millisecond, TLSName: c05TLSName, StrictSNI: true})
 	g.onFatal = write
 
 	scenario, scMark := "", 0
@@ -368,6 +377,7 @@ func c05HostileChildMain(t *testing.T) {
 		nRandom = 600
 	}
 	scs = append(scs, c05RandomScenarios(&c05Rand{s: seed*5151 + 3}, nRandom)...)
+	scs = append(scs, c05RandomClientIDScenarios(&c05Rand{s: seed*7717 + 5}, nRandom/2)...)
 	if only := os.Getenv("VERIF_C05_ONLY"); only != "" {
 		var keep []c05Scenario
 		for _, sc := range scs {
